@@ -17,7 +17,28 @@ from vlib.report import pmap
 RULE = ('bounded: every contract of C06 evaluated natively on each labelled molecule of the stated domain; non-trivial = the '
         'unlabelled graph (with its bond-order variant) has at least one ring')
 
-HARD = ('not_special_connectivity', 'rings_count', 'connected_components')   # never excused by a ring-perception gap
+# Inside a recorded gap ONLY these are excused (coordinator's decision): minimum total size, GF(2) independence, stability of the
+# size multiset under renumbering.  The two bridge-oracle mark contracts are theorems about a *basis*, so they are excused only for
+# a molecule whose reported set is itself dependent.  Everything else (count, simple cycles, marks vs the reported sssr, per-atom
+# views, aromatic rings, rings_count, components, no exception) stays enforced inside the gaps.
+EXCUSED = ('sssr-independent', 'sssr-minimal', 'sssr-size-multiset', 'sssr-sizes-numbering')
+BASIS_THEOREMS = ('atom-in_ring-oracle', 'bond-in_ring-oracle')
+
+# the 18-atom witness found by the seeded assemblies on the unchanged tree (seed independent, run every time): cyclopentane fused on
+# an 8-ring, a 4-ring spiro/fused at atom 9 and a 3-atom bridge; contains the theta core 3/5/5, so it is inside gap A
+FIXED_GAP_A = ([117, 114, 110, 108, 115, 111, 105, 102, 103, 116, 104, 109, 112, 106, 118, 101, 113, 107],
+               [(115, 102, 1), (102, 104, 1), (112, 114, 1), (113, 117, 1), (103, 115, 1), (118, 113, 1), (105, 108, 1), (118, 109, 1),
+                (106, 107, 1), (103, 104, 1), (105, 116, 1), (114, 107, 1), (117, 101, 1), (118, 106, 1), (102, 110, 1), (112, 111, 1),
+                (110, 108, 1), (116, 109, 1), (102, 112, 1), (108, 118, 1), (101, 115, 1)])
+
+
+def _split(fails, gap):
+    """(enforced failures, excused failures) of one molecule under the gap rule above"""
+    if not gap:
+        return fails, []
+    names = {f[0] for f in fails}
+    exc = [f for f in fails if f[0] in EXCUSED or (f[0] in BASIS_THEOREMS and 'sssr-independent' in names)]
+    return [f for f in fails if f not in exc], exc
 
 
 # ---------------------------------------------------------------------------------------------------------------------------------
@@ -202,12 +223,13 @@ def _work_graph(item):
     import networkx as nx
     from bounded import domains as D
     from oracles import o06_gaps as O
-    name, nodes, edges, ntrials, n_coord, aromatic, fixed_orders = item
+    name, nodes, edges, ntrials, n_coord, aromatic, fixed = item
     r = D.rnd(f'b06:{name}')
     ncases, keys, samples, viols = 0, [], [], []
     gaps = Counter()
-    if fixed_orders is not None:
-        variants = [('asis', fixed_orders)]
+    if fixed is not None:
+        variants = [('asis', [tuple(b) for b in fixed[1]])]
+        nodes = list(fixed[0])
     else:
         variants = list(_variants(name, nodes, edges, r, n_coord, aromatic))
     for vname, oedges in variants:
@@ -224,17 +246,20 @@ def _work_graph(item):
         seen_sizes = {}
         reported = set()
         for t in range(ntrials):
-            atoms, bonds, perm = _labelled(nodes, oedges, r, identity=(t == 0))
+            if fixed is not None and t == 0:
+                atoms, bonds = list(fixed[0]), [tuple(b) for b in fixed[1]]
+            else:
+                atoms, bonds, perm = _labelled(nodes, oedges, r, identity=(t == 0))
             m = _mol(atoms, bonds)
             fails, sizes = evaluate(m, exp)
             ncases += 1
             if sizes is not None:
                 seen_sizes.setdefault(tuple(sizes), t)
+            fails, excused = _split(fails, gap)
+            for c, what, nat in excused:
+                gaps[f'hits:{gap.split("=")[0]}:{c}'] += 1
+                gaps['hit-graphs:' + ident + ' ' + what.split(' [')[0]] = 1
             for c, what, nat in fails:
-                if gap and c not in HARD:
-                    gaps['hits:' + gap.split('=')[0]] += 1
-                    gaps['hit-graphs:' + ident] = 1
-                    continue
                 if c in reported:
                     continue
                 reported.add(c)
@@ -243,8 +268,8 @@ def _work_graph(item):
                                'atoms': atoms, 'bonds': [list(b) for b in bonds]}, nat))
         if len(seen_sizes) > 1:
             if gap:
-                gaps['hits:' + gap.split('=')[0]] += 1
-                gaps['hit-graphs:' + ident] = 1
+                gaps[f'hits:{gap.split("=")[0]}:sssr-sizes-numbering'] += 1
+                gaps['hit-graphs:' + ident + f' sizes vary with numbering {sorted(seen_sizes)}'] = 1
             elif 'sssr-minimal' not in reported and 'sssr-size-multiset' not in reported:
                 viols.append((f'sssr-sizes-numbering:{ident}', f'ring-size multiset depends on atom numbering: {sorted(seen_sizes)} [{name} {vname}: bonds {src}]',
                               {'contract': 'sssr-sizes-numbering', 'source': name, 'variant': vname, 'source_bonds': src,
@@ -293,15 +318,18 @@ def _work_smiles(item):
         ncases += 1
         if sizes is not None:
             sizes_seen.setdefault(tuple(sizes), t)
+        fails, excused = _split(fails, gap)
+        for c, what, nat in excused:
+            gaps[f'hits:{gap.split("=")[0]}:{c}'] += 1
+            gaps['hit-graphs:' + ident + ' ' + what] = 1
         for c, what, nat in fails:
-            if gap and c not in HARD:
-                gaps['hits:' + gap.split('=')[0]] += 1
-                gaps['hit-graphs:' + ident] = 1
-                continue
             if c in reported:
                 continue
             reported.add(c)
             viols.append((f'{c}:{ident}', f'{c}: {what} [{name} trial {t}]', {'contract': c, 'source': name, 'trial': t, **wit}, nat))
+    if len(sizes_seen) > 1 and gap:
+        gaps[f'hits:{gap.split("=")[0]}:sssr-sizes-numbering'] += 1
+        gaps['hit-graphs:' + ident + f' sizes vary with numbering {sorted(sizes_seen)}'] = 1
     if len(sizes_seen) > 1 and not gap and not reported & {'sssr-minimal', 'sssr-size-multiset'}:
         viols.append((f'sssr-sizes-numbering:{ident}', f'ring-size multiset depends on atom numbering: {sorted(sizes_seen)} [{name}]',
                       {'contract': 'sssr-sizes-numbering', 'source': name}, sorted(sizes_seen)))
